@@ -113,20 +113,71 @@ impl Family for FStdlibReals {
     }
 }
 
+/// Tables beyond the sizes the exhaustive families reach (20 .. 100 entries: past every small-input
+/// shortcut a sort or a selection may take), filled from value patterns with many ties, out of order;
+/// every library function, value / negated-value key functions, string and integer keys.
+pub struct FStdlibLarge;
+
+impl FStdlibLarge {
+    const SIZES: [usize; 6] = [20, 21, 32, 33, 50, 100];
+    const PATTERNS: u64 = 4;
+}
+
+impl Family for FStdlibLarge {
+    fn name(&self) -> &'static str {
+        "F-stdlib-large"
+    }
+    fn len(&self) -> u64 {
+        Self::SIZES.len() as u64 * Self::PATTERNS * 2 * FUNCTIONS.len() as u64 * 2
+    }
+    fn case(&self, idx: u64) -> Module {
+        let mut i = idx;
+        let n = Self::SIZES[(i % Self::SIZES.len() as u64) as usize];
+        i /= Self::SIZES.len() as u64;
+        let pattern = i % Self::PATTERNS;
+        i /= Self::PATTERNS;
+        let key_style = i % 2;
+        i /= 2;
+        let fname = FUNCTIONS[(i % FUNCTIONS.len() as u64) as usize];
+        let second = i / FUNCTIONS.len() as u64 == 1;
+        let variant = if !second { 0 } else if fname.ends_with("by_key") { 3 } else if matches!(fname, "filter" | "any" | "map") { 3 } else { 0 };
+        let entries: Vec<C> = (0..n)
+            .map(|j| match pattern {
+                0 => int(((n - 1 - j) % 5) as i64),
+                1 => int(((j * 7 + 3) % 4) as i64),
+                2 => int(1 - (j % 2) as i64),
+                _ => {
+                    if j % 2 == 1 {
+                        C::Float(((n - j) % 3) as f64)
+                    } else {
+                        int(((n - j) % 3) as i64)
+                    }
+                }
+            })
+            .collect();
+        build_from(entries, key_style, fname, variant, 0)
+    }
+}
+
 fn build(vals: &[C], mut ti: u64, key_style: u64, fname: &str, variant: usize, path: u64) -> Module {
+    let v = vals.len() as u64;
+    // decode the table: number of entries, then the values
+    let mut n = 0u32;
+    while ti >= v.pow(n) {
+        ti -= v.pow(n);
+        n += 1;
+    }
+    let mut entries: Vec<C> = Vec::new();
+    for _ in 0..n {
+        entries.push(vals[(ti % v) as usize].clone());
+        ti /= v;
+    }
+    build_from(entries, key_style, fname, variant, path)
+}
+
+fn build_from(entries: Vec<C>, key_style: u64, fname: &str, variant: usize, path: u64) -> Module {
     {
-        let v = vals.len() as u64;
-        // decode the table: number of entries, then the values
-        let mut n = 0u32;
-        while ti >= v.pow(n) {
-            ti -= v.pow(n);
-            n += 1;
-        }
-        let mut entries: Vec<C> = Vec::new();
-        for _ in 0..n {
-            entries.push(vals[(ti % v) as usize].clone());
-            ti /= v;
-        }
+        let n = entries.len();
         let key_of = |j: usize| -> C {
             match key_style {
                 0 => int(j as i64),
